@@ -5,6 +5,7 @@ use crate::util::Ctx;
 pub mod c04;
 pub mod c06;
 pub mod c13;
+pub mod c14;
 pub mod c19;
 
 pub fn dispatch(ctx: &mut Ctx) -> bool {
@@ -12,6 +13,7 @@ pub fn dispatch(ctx: &mut Ctx) -> bool {
 		"C04" => c04::run(ctx),
 		"C06" => c06::run(ctx),
 		"C13" => c13::run(ctx),
+		"C14" => c14::run(ctx),
 		"C19" => c19::run(ctx),
 		_ => return false,
 	}
@@ -26,6 +28,7 @@ pub fn confirm(key: &str) -> Option<Option<String>> {
 		"C04" => c04::confirm(key),
 		"C06" => c06::confirm(key),
 		"C13" => c13::confirm(key),
+		"C14" => c14::confirm(key),
 		"C19" => c19::confirm(key),
 		_ => None,
 	}
